@@ -652,7 +652,148 @@ func ctorMain(repo, out string) {
 	}
 }
 
+// ---------------------------------------------------------------------------------------------------------------------
+// `go2deep -wrappers`: the writing methods of Map / MapOf are one call of doCompute each; print what they pass
+
+func boolLit(e ast.Expr) (bool, bool) {
+	if id, ok := e.(*ast.Ident); ok {
+		switch id.Name {
+		case "true":
+			return true, true
+		case "false":
+			return false, true
+		}
+	}
+	return false, false
+}
+
+// wrapper prints `[return] m.doCompute(key, fn, loadIfExists, computeOnly)` as a Wrapper
+func wrapper(fd *ast.FuncDecl, recv string) string {
+	if len(fd.Body.List) != 1 {
+		die("%s: %s: body outside the subset (one call of doCompute)", pos(fd), fd.Name.Name)
+	}
+	var call *ast.CallExpr
+	returns := false
+	switch x := fd.Body.List[0].(type) {
+	case *ast.ExprStmt:
+		call, _ = x.X.(*ast.CallExpr)
+	case *ast.ReturnStmt:
+		if len(x.Results) == 1 {
+			call, _ = x.Results[0].(*ast.CallExpr)
+			returns = true
+		}
+	}
+	if call == nil || typeString(call.Fun) != recv+".doCompute" || len(call.Args) != 4 {
+		die("%s: %s: body outside the subset (one call of %s.doCompute with four arguments)", pos(fd), fd.Name.Name, recv)
+	}
+	// parameters of the wrapper: the key first
+	var params []string
+	for _, p := range fd.Type.Params.List {
+		for _, n := range p.Names {
+			params = append(params, n.Name)
+		}
+	}
+	if len(params) == 0 || typeString(call.Args[0]) != params[0] {
+		die("%s: %s: the first argument of doCompute is not the key parameter", pos(fd), fd.Name.Name)
+	}
+	lie, ok1 := boolLit(call.Args[2])
+	co, ok2 := boolLit(call.Args[3])
+	if !ok1 || !ok2 {
+		die("%s: %s: flags of doCompute are not literals", pos(fd), fd.Name.Name)
+	}
+	shape := ""
+	switch f := call.Args[1].(type) {
+	case *ast.Ident:
+		if len(params) == 2 && f.Name == params[1] {
+			shape = ".pass"
+		}
+	case *ast.FuncLit:
+		var own []string
+		for _, p := range f.Type.Params.List {
+			for _, n := range p.Names {
+				own = append(own, n.Name)
+			}
+		}
+		if len(f.Body.List) == 1 {
+			if rs, ok := f.Body.List[0].(*ast.ReturnStmt); ok && len(rs.Results) == 2 {
+				if del, ok := boolLit(rs.Results[1]); ok {
+					d := fmt.Sprintf("%v", del)
+					switch r := rs.Results[0].(type) {
+					case *ast.Ident:
+						if len(own) > 0 && r.Name == own[0] {
+							shape = "(.old " + d + ")"
+						} else if len(params) == 2 && r.Name == params[1] && !contains(own, r.Name) {
+							shape = "(.arg " + d + ")"
+						}
+					case *ast.CallExpr:
+						if len(r.Args) == 0 && len(params) == 2 && typeString(r.Fun) == params[1] && !contains(own, params[1]) {
+							shape = "(.callArg " + d + ")"
+						}
+					}
+				}
+			}
+		}
+	}
+	if shape == "" {
+		die("%s: %s: function argument of doCompute outside the subset", pos(fd), fd.Name.Name)
+	}
+	return fmt.Sprintf("{ fn := %s, lie := %v, co := %v, returns := %v }", shape, lie, co, returns)
+}
+
+func contains(xs []string, x string) bool {
+	for _, y := range xs {
+		if x == y {
+			return true
+		}
+	}
+	return false
+}
+
+func wrappersMain(repo, out string) {
+	var b strings.Builder
+	b.WriteString("-- GENERATED by /verif/tools/go2deep -wrappers from the working tree of /repo. Do not edit.\n")
+	b.WriteString("import CacheVerif.Deep.Wrapper\nnamespace Gen.Deep\nopen _root_.Deep\n\n")
+	want := []string{"Store", "LoadOrStore", "LoadAndStore", "LoadOrCompute", "Compute", "LoadAndDelete", "Delete"}
+	for _, spec := range []struct{ file, recvType string }{{"internal/xsync/map.go", "Map"}, {"internal/xsync/mapof.go", "MapOf"}} {
+		f, err := parser.ParseFile(fset, filepath.Join(repo, spec.file), nil, 0)
+		if err != nil {
+			die("%v", err)
+		}
+		found := map[string]string{}
+		for _, d := range f.Decls {
+			fd, ok := d.(*ast.FuncDecl)
+			if !ok {
+				continue
+			}
+			rt, rn := recvTypeName(fd)
+			if rt != spec.recvType || !contains(want, fd.Name.Name) {
+				continue
+			}
+			found[fd.Name.Name] = wrapper(fd, rn)
+		}
+		for _, n := range want {
+			w, ok := found[n]
+			if !ok {
+				die("%s: method %s.%s not found", spec.file, spec.recvType, n)
+			}
+			fmt.Fprintf(&b, "/-- `%s.%s` (%s) -/\ndef %s_%s : Wrapper := %s\n", spec.recvType, n, spec.file, spec.recvType, n, w)
+		}
+		b.WriteString("\n")
+	}
+	b.WriteString("end Gen.Deep\n")
+	if old, err := os.ReadFile(out); err == nil && string(old) == b.String() {
+		return
+	}
+	if err := os.WriteFile(out, []byte(b.String()), 0o644); err != nil {
+		die("%v", err)
+	}
+}
+
 func main() {
+	if len(os.Args) == 4 && os.Args[1] == "-wrappers" {
+		wrappersMain(os.Args[2], os.Args[3])
+		return
+	}
 	if len(os.Args) == 4 && os.Args[1] == "-ctor" {
 		ctorMain(os.Args[2], os.Args[3])
 		return
